@@ -77,8 +77,26 @@ def poke(obj, attr, idx, v):
         setattr(obj, attr, a)
 
 
+def item_state(kind, it):
+    out = []
+    for attr in ("logical_camera_index", "label", "values", "data", "position", "application_point", "force", "torque"):
+        x = getattr(it, attr, None)
+        if x is not None:
+            out.append(np.asarray(x).tobytes() if isinstance(x, np.ndarray) else repr(x))
+    return out
+
+
 def edit_item(kind, it, rng):
-    """edits the content of one item through its public attributes"""
+    """edits the content of one item through its public attributes; the content really changes (an edit that happens to write
+    the value that is already there is repeated with another value)"""
+    before = item_state(kind, it)
+    for _ in range(6):
+        _edit_item(kind, it, rng)
+        if item_state(kind, it) != before:
+            return
+
+
+def _edit_item(kind, it, rng):
     v = np.float32(rng.choice([1.5, -2.25, 1000.0]) + rng.randrange(100))
     if kind == "optical":
         it.logical_camera_index = (int(it.logical_camera_index) + 1) % 1000
